@@ -12,7 +12,6 @@ import (
 	"os"
 	"os/exec"
 	"path/filepath"
-	"regexp"
 	"strings"
 	"sync"
 	"syscall"
@@ -41,17 +40,51 @@ type proxyCase struct {
 	Seed   uint64   `json:"seed"`
 }
 
-// The fixed template of apps/proxy/reportfeed/reportpage.go, pinned here: the five
-// dynamic parts are captured; everything else must match literally.
-var reportRe = regexp.MustCompile(`(?s)<h3>Last Client Buffer</h3>\n<span id='clienttimestamp'>(.*?)</span>\n<pre>\n<code>\n<div class="preformatted" id='clientbuffer'>\n(.*?)\n</div>\n</code>\n</pre>\n<h3>Last Server Buffer</h3>\n<span id='servertimestamp'>(.*?)</span>\n<pre>\n<code>\n<div class="preformatted" id='serverbuffer'>\n(.*?)\n</div>\n</code>\n<code>\n<div class="preformatted" id='messages'>\n(.*)\n</div>\n</code>\n</pre>\n`)
+// The fixed template of apps/proxy/reportfeed/reportpage.go, pinned here as the
+// literal text between its five dynamic parts.
+var reportMarkers = []string{
+	"<h3>Last Client Buffer</h3>\n<span id='clienttimestamp'>",
+	"</span>\n<pre>\n<code>\n<div class=\"preformatted\" id='clientbuffer'>\n",
+	"\n</div>\n</code>\n</pre>\n<h3>Last Server Buffer</h3>\n<span id='servertimestamp'>",
+	"</span>\n<pre>\n<code>\n<div class=\"preformatted\" id='serverbuffer'>\n",
+	"\n</div>\n</code>\n<code>\n<div class=\"preformatted\" id='messages'>\n",
+	"\n</div>\n</code>\n</pre>\n",
+}
+
+// splitReport cuts a status page into its five traffic-derived parts.  Each fixed
+// piece of the template is located in order (the last one from the end), so text
+// that imitates the template inside a part ends up inside some part and is judged there.
+func splitReport(body string) []string {
+	pos := strings.Index(body, reportMarkers[0])
+	if pos < 0 {
+		return nil
+	}
+	pos += len(reportMarkers[0])
+	var parts []string
+	for i := 1; i < len(reportMarkers); i++ {
+		var j int
+		if i == len(reportMarkers)-1 {
+			j = strings.LastIndex(body[pos:], reportMarkers[i])
+		} else {
+			j = strings.Index(body[pos:], reportMarkers[i])
+		}
+		if j < 0 {
+			return nil
+		}
+		parts = append(parts, body[pos:pos+j])
+		pos += j + len(reportMarkers[i])
+	}
+	return parts
+}
 
 // checkReport examines a status report body.  It returns the raw bytes of the
 // messages listed in it (parsed back from their hex dumps).
 func checkReport(body string) (listed [][]byte, problem string, inconclusive string) {
-	m := reportRe.FindStringSubmatch(body)
-	if m == nil {
+	parts := splitReport(body)
+	if parts == nil {
 		return nil, "", "the status page no longer has the pinned layout"
 	}
+	m := append([]string{""}, parts...)
 	names := []string{"client heading", "client buffer dump", "server heading", "server buffer dump", "message list"}
 	for i, part := range m[1:] {
 		if j := strings.IndexAny(part, "<>"); j >= 0 {
@@ -318,7 +351,6 @@ func execC19Session(c *child.Ctx, k proxyCase, cj []byte) {
 		return
 	}
 	defer p.stop()
-	r := ref.NewRand(k.Seed)
 	var allClient []byte
 	for ci := range k.Conns {
 		clientBytes := unhex(k.Conns[ci])
@@ -352,15 +384,34 @@ func execC19Session(c *child.Ctx, k proxyCase, cj []byte) {
 		go func() { defer wg.Done(); writeChunks(up, serverBytes, k.Chunk, k.GapUs, ref.NewRand(k.Seed+2)) }()
 		go func() { defer wg.Done(); upGot = readN(up, len(clientBytes), 60*time.Second) }()
 		go func() { defer wg.Done(); clGot = readN(conn, len(serverBytes), 60*time.Second) }()
-		// poll the status page while traffic flows
+		// poll the status page continuously while traffic flows
 		var reports []string
-		for i := 0; i < 2; i++ {
-			time.Sleep(time.Duration(r.Range(1, 30)) * time.Millisecond)
-			if b, err := p.report(); err == nil {
-				reports = append(reports, b)
+		var repMu sync.Mutex
+		stopPoll := make(chan struct{})
+		pollDone := make(chan struct{})
+		go func() {
+			defer close(pollDone)
+			pr := ref.NewRand(k.Seed + 3)
+			for n := 0; n < 80; n++ {
+				select {
+				case <-stopPoll:
+					return
+				default:
+				}
+				if b, err := p.report(); err == nil {
+					repMu.Lock()
+					if len(reports) < 40 || pr.Chance(1, 10) {
+						reports = append(reports, b)
+					}
+					repMu.Unlock()
+					c.Count("reports_fetched_during_traffic", 1)
+				}
+				time.Sleep(time.Duration(pr.Range(200, 8000)) * time.Microsecond)
 			}
-		}
+		}()
 		wg.Wait()
+		close(stopPoll)
+		<-pollDone
 		allClient = append(allClient, clientBytes...)
 		if b, err := p.report(); err == nil {
 			reports = append(reports, b)
@@ -547,6 +598,107 @@ func execC19Status(c *child.Ctx, k proxyCase, cj []byte) {
 	c.Count("status_calls_checked", 1)
 }
 
+// execC19Concurrent: the queue is fed while the status report is produced and the
+// buffers are recorded, as happens in the proxy while traffic flows and an operator
+// reloads the page.  Every report is checked; a deadlock is detected logically.
+func execC19Concurrent(c *child.Ctx, k proxyCase, cj []byte) {
+	r := ref.NewRand(k.Seed)
+	q := circularQueue.NewCircularQueue(20)
+	var lg *dailylogger.Writer
+	rf := reportfeed.New(lg, q)
+	traffic := proxyStream(r, 6000)
+	msgs := runSequential(fixedStart, slog.LevelInfo, traffic)
+	if len(msgs) == 0 {
+		return
+	}
+	done := make(chan struct{})
+	var wg sync.WaitGroup
+	stop := make(chan struct{})
+	wg.Add(1)
+	go func() { // the parser side: adds messages
+		defer wg.Done()
+		for round := 0; round < 8; round++ {
+			for i := range msgs {
+				q.Add(msgs[i])
+				tick()
+			}
+		}
+		close(stop)
+	}()
+	for g := 0; g < 2; g++ {
+		wg.Add(1)
+		go func(g int) { // operators reloading the status page
+			defer wg.Done()
+			for {
+				select {
+				case <-stop:
+					return
+				default:
+				}
+				body := string(rf.Status())
+				tick()
+				listed, problem, _ := checkReport(body)
+				if problem != "" {
+					c.Violate("report-not-escaped", problem, cj)
+					return
+				}
+				if why := listedAreRelayedCyclic(listed, msgs); why != "" {
+					c.Violate("report-lists-unrelayed", why, cj)
+					return
+				}
+				c.Count("concurrent_status_calls_checked", 1)
+			}
+		}(g)
+	}
+	wg.Add(1)
+	go func() { // the relay side: records buffers
+		defer wg.Done()
+		rr := ref.NewRand(k.Seed + 9)
+		for {
+			select {
+			case <-stop:
+				return
+			default:
+			}
+			b := proxyStream(rr, 200)
+			if len(b) > 2048 {
+				b = b[:2048]
+			}
+			rf.RecordClientBuffer(&b, 1, len(b))
+			b2 := append([]byte(nil), b...)
+			rf.RecordServerBuffer(&b2, 1, len(b2))
+			tick()
+		}
+	}()
+	go func() { wg.Wait(); close(done) }()
+	waitOrHang(done, caseWatchdog, "queue, report feed and status page running concurrently did not finish")
+}
+
+// listedAreRelayedCyclic is listedAreRelayed for a queue that is fed the same
+// message sequence round after round.
+func listedAreRelayedCyclic(listed [][]byte, msgs []handler.Message) string {
+	if len(listed) == 0 {
+		return ""
+	}
+	if len(listed) > 20 {
+		return fmt.Sprintf("the report lists %d messages, more than the 20 it keeps", len(listed))
+	}
+	n := len(msgs)
+	for start := 0; start < n; start++ {
+		ok := true
+		for j := range listed {
+			if !bytes.Equal(listed[j], msgs[(start+j)%n].RawData) {
+				ok = false
+				break
+			}
+		}
+		if ok {
+			return ""
+		}
+	}
+	return fmt.Sprintf("the report lists %d messages that are not a contiguous run of the messages added (first listed: %s)", len(listed), clip(hexs(listed[0])))
+}
+
 func monC19(c *child.Ctx, replay json.RawMessage) {
 	if replay != nil {
 		var k proxyCase
@@ -554,6 +706,10 @@ func monC19(c *child.Ctx, replay json.RawMessage) {
 		c.Begin(replay)
 		if k.Kind == "status" {
 			execC19Status(c, k, replay)
+		} else if k.Kind == "concurrent" {
+			for i := 0; i < 20 && c.NViolations() == 0; i++ {
+				execC19Concurrent(c, k, replay)
+			}
 		} else {
 			for i := 0; i < 5 && c.NViolations() == 0; i++ {
 				k.ID = 9000 + i
@@ -597,6 +753,13 @@ func monC19(c *child.Ctx, replay json.RawMessage) {
 			c.Begin(cj)
 		}
 		execC19Status(c, k, cj)
+		c.Eval(ref.Hash64(cj), true)
+	}
+	ncc := c.Share(c.Pick(20, 2000))
+	for i := 0; i < ncc; i++ {
+		k := proxyCase{ID: c.Batch*10000 + 8000 + i, Kind: "concurrent", Seed: r.Uint64() >> 1}
+		cj := c.BeginV(k)
+		execC19Concurrent(c, k, cj)
 		c.Eval(ref.Hash64(cj), true)
 	}
 	os.Stderr = saved
